@@ -803,7 +803,11 @@ pub fn c12(tier: Tier, _seed: u64) -> Prop {
             "the exact placement of the argv array and strings inside the argument block is free; they must lie above the 88-byte TCB area, inside DRAM, without overlapping".into(),
             "p_paddr = p_vaddr, PT_LOAD entries in ascending order, non-load entries in any position (as the quantifier says)".into(),
         ],
-        units: elf_units("C12", tier),
+        units: {
+            let mut u = elf_units("C12", tier);
+            u.push(real_binary_unit());
+            u
+        },
         extra: crate::hv::shard::no_extra(),
         profiles: vec!["release"],
     }
@@ -836,4 +840,169 @@ pub fn replay_elf(case: &Value) -> bool {
             false
         }
     }
+}
+
+// ------------------------------------------------------------------------------------------------
+// E6 (supplementary): the repository's own binary, end to end (main.rs argument handling, loader,
+// run loop, MES write call wired together).  A guest that prints its own argv is loaded and run by
+// the real executable; its console stream must be exactly what the argument string implies.
+// ------------------------------------------------------------------------------------------------
+
+use crate::hv::isa::{Fields, Isa};
+
+/// Guest: for every argv[i] (until the null pointer) write the string, then "|", through the MES write
+/// call; then jump to ___exit.  Returns (code, offset of ___exit).
+pub fn argv_guest(isa: &Isa) -> (Vec<u8>, u32) {
+    let enc = |name: &str, f: Fields| isa.encode(isa.row(name), &f);
+    let f = Fields::default;
+    // layout inside the image: code at 0, scratch block at 0x100 (12 bytes), the "|" byte at 0x110
+    let scr = BASE + 0x100;
+    let bar = BASE + 0x110;
+    let mut c: Vec<u8> = Vec::new();
+    c.extend(enc("MOV.L ERs,ERd", Fields { rs: 1, rd: 6, ..f() })); // ER6 = argv
+    let next = c.len();
+    c.extend(enc("MOV.L @ERs+,ERd", Fields { ra: 6, rd: 2, ..f() })); // ER2 = *argv++
+    let beq_pos = c.len();
+    c.extend(enc("Bcc d:8", Fields { cc: 7, data: 0, ..f() })); // BEQ done (patched)
+    c.extend(enc("MOV.L ERs,ERd", Fields { rs: 2, rd: 3, ..f() }));
+    let len_top = c.len();
+    c.extend(enc("MOV.B @ERs+,Rd", Fields { ra: 3, rd: 12, ..f() })); // R4L = *p++
+    let here = c.len() + 2;
+    c.extend(enc("Bcc d:8", Fields { cc: 6, data: (len_top as i32 - here as i32) as u32 & 0xff, ..f() })); // BNE
+    c.extend(enc("SUB.L ERs,ERd", Fields { rs: 2, rd: 3, ..f() }));
+    c.extend(enc("SUBS #1,ERd", Fields { rd: 3, ..f() })); // ER3 = strlen
+    let emit_write = |c: &mut Vec<u8>, buf_reg: Option<u8>, buf_imm: u32, len_reg: Option<u8>, len_imm: u32| {
+        c.extend(enc("MOV.L #xx:32,ERd", Fields { rd: 1, data: scr, ..f() }));
+        c.extend(enc("MOV.L #xx:32,ERd", Fields { rd: 0, data: 1, ..f() }));
+        c.extend(enc("MOV.L ERs,@ERd", Fields { rs: 0, ra: 1, ..f() }));
+        match buf_reg {
+            Some(r) => c.extend(enc("MOV.L ERs,@(d:16,ERd)", Fields { rs: r, ra: 1, data: 4, ..f() })),
+            None => {
+                c.extend(enc("MOV.L #xx:32,ERd", Fields { rd: 0, data: buf_imm, ..f() }));
+                c.extend(enc("MOV.L ERs,@(d:16,ERd)", Fields { rs: 0, ra: 1, data: 4, ..f() }));
+            }
+        }
+        match len_reg {
+            Some(r) => c.extend(enc("MOV.L ERs,@(d:16,ERd)", Fields { rs: r, ra: 1, data: 8, ..f() })),
+            None => {
+                c.extend(enc("MOV.L #xx:32,ERd", Fields { rd: 0, data: len_imm, ..f() }));
+                c.extend(enc("MOV.L ERs,@(d:16,ERd)", Fields { rs: 0, ra: 1, data: 8, ..f() }));
+            }
+        }
+        c.extend(enc("MOV.L #xx:32,ERd", Fields { rd: 0, data: 104, ..f() }));
+        c.extend(enc("TRAPA #x:2", Fields { trap: 0, ..f() }));
+    };
+    emit_write(&mut c, Some(2), 0, Some(3), 0);
+    emit_write(&mut c, None, bar, None, 1);
+    let here = c.len() + 4;
+    c.extend(enc("Bcc d:16", Fields { cc: 0, data: (next as i32 - here as i32) as u32 & 0xffff, ..f() })); // BRA next
+    let done = c.len();
+    c[beq_pos + 1] = (done as i32 - (beq_pos as i32 + 2)) as u8;
+    c.extend(enc("MOV.L #xx:32,ERd", Fields { rd: 0, data: 7, ..f() }));
+    let exit_off = c.len() as u32 + 4; // address right after the JMP
+    c.extend(enc("JMP @aa:24", Fields { data: BASE + exit_off, ..f() }));
+    c.extend([0x40, 0xfe]); // ___exit: (never executed)
+    assert!(c.len() < 0x100);
+    c.resize(0x111, 0);
+    c[0x110] = b'|';
+    (c, exit_off)
+}
+
+/// An ELF around given code bytes (single PT_LOAD), written with the independent writer.
+pub fn elf_with_code(code: &[u8], exit_off: u32, stack_size: u32, extra_bss: u32) -> Vec<u8> {
+    // reuse Spec::build by temporarily describing one segment and then overwriting its contents in the file
+    let mut s = default_spec();
+    s.segs = vec![Seg { vaddr: 0, filesz: code.len() as u32, memsz: code.len() as u32 + extra_bss }];
+    s.file_order = vec![0];
+    s.got = None;
+    s.stack_size = stack_size;
+    s.symbols = vec![("_start".into(), 0), ("___exit".into(), exit_off)];
+    let mut f = s.build();
+    // the segment's contents start at the first 16-aligned offset after the program header
+    let off = ((52 + 32 + 15) & !15) as usize;
+    f[off..off + code.len()].copy_from_slice(code);
+    f
+}
+
+pub fn repo_binary() -> Option<String> {
+    std::env::var("VERIF_REPO_BIN").ok().filter(|p| std::path::Path::new(p).exists())
+}
+
+fn real_binary_unit() -> Unit {
+    Unit::new(
+        "real-binary/argv",
+        8,
+        "the repository's own release binary (main.rs argument handling + loader + run loop + MES write call) runs a guest that prints its argv: 60 argument strings (every separator pattern, leading dash, 32 words, quotes and backslashes, 200-byte word) x stack sizes {0x400, 3}; the console/message stream must be exactly what the argument string implies and the process must exit normally",
+        move |ctx, chunk| {
+            let bin = match repo_binary() {
+                Some(b) => b,
+                None => {
+                    ctx.custom_violation("elf", "MACHINERY: VERIF_REPO_BIN not set / repository binary not built".into(), json!({}), json!(null), json!(null));
+                    return;
+                }
+            };
+            let (code, exit_off) = argv_guest(&ctx.isa);
+            let mut args: Vec<String> = vec![
+                "".into(), " ".into(), "a".into(), "a b".into(), "  a   b  ".into(), "a\tb".into(), "\ta \t b\t".into(), "-x".into(), "-x -y --long=1".into(), "ab=c".into(),
+                "\"quoted\" 'single'".into(), "back\\slash".into(), "a|b".into(), "é".into(), "日本 語".into(), "z".repeat(200), format!("{} end", "y".repeat(120)),
+                (0..32).map(|i| format!("w{}", i)).collect::<Vec<_>>().join(" "),
+                "--".into(), "- -".into(), "-e x".into(), "--elf=zzz".into(), "-a".into(), "-m".into(), "-s".into(),
+            ];
+            for c in 0x21u8..=0x7e {
+                if args.len() < 60 {
+                    args.push(format!("{}{} {}", c as char, c as char, (c as char).to_string().repeat(3)));
+                }
+            }
+            let dir = crate::hv::shard::verif_dir().join(".work");
+            let path = dir.join(format!("e6-{}-{}.elf", std::process::id(), chunk));
+            let (lo, hi) = chunk_range(args.len() as u64, 8, chunk);
+            for k in lo as usize..hi as usize {
+                for ss in [0x400u32, 3] {
+                    let a = &args[k];
+                    let file = elf_with_code(&code, exit_off, ss, 0x20);
+                    if std::fs::write(&path, &file).is_err() {
+                        ctx.custom_violation("elf", "MACHINERY: cannot write scratch ELF".into(), json!({}), json!(null), json!(null));
+                        return;
+                    }
+                    let out = std::process::Command::new("timeout")
+                        .args(["20", &bin, "-e", path.to_str().unwrap_or(""), &format!("--args={}", a), "-m", "--log", "off"])
+                        .env("RUST_BACKTRACE", "0")
+                        .output();
+                    ctx.st.cases += 1;
+                    ctx.st.nontrivial += 1;
+                    let case = json!({"prop": "C12", "real_binary": true, "args": a, "stack_size": ss});
+                    match out {
+                        Ok(o) => {
+                            let mut want: Vec<u8> = Vec::new();
+                            let mut words: Vec<&str> = vec!["prog.elf"];
+                            words.extend(a.split(|c: char| c == ' ' || c == '\t').filter(|w| !w.is_empty()));
+                            for w in words {
+                                for piece in [w, "|"] {
+                                    want.extend(piece.as_bytes());
+                                    want.extend(format!("msg: stdout:{}\n", piece).as_bytes());
+                                }
+                            }
+                            if !o.status.success() {
+                                ctx.custom_violation("elf", format!("the emulator binary exited with {:?} for arguments {:?}: {}", o.status.code(), a, String::from_utf8_lossy(&o.stderr).chars().take(300).collect::<String>()), case, json!(null), json!(null));
+                            } else if o.stdout != want {
+                                ctx.custom_violation(
+                                    "elf",
+                                    format!("guest saw different arguments through the real binary: console stream {:?}, expected {:?}", String::from_utf8_lossy(&o.stdout).chars().take(200).collect::<String>(), String::from_utf8_lossy(&want).chars().take(200).collect::<String>()),
+                                    case,
+                                    json!(null),
+                                    json!(null),
+                                );
+                            }
+                        }
+                        Err(e) => ctx.custom_violation("elf", format!("MACHINERY: cannot run the binary: {}", e), case, json!(null), json!(null)),
+                    }
+                    if ctx.stop {
+                        break;
+                    }
+                }
+            }
+            let _ = std::fs::remove_file(&path);
+            ctx.sample(json!({"real_binary": true, "args": "  a   b  ", "expected_stream": "prog.elf|a|b| (each piece followed by its msg: stdout: line)"}));
+        },
+    )
 }
